@@ -140,12 +140,12 @@ func charLevel(c *fw.Ctx, src string) {
 }
 
 func C08(c *fw.Ctx) {
-	fullLen, redLen, exprLen, charLen := 4, 6, 7, 3
+	fullLen, redLen, exprLen, charLen, stmtLen := 4, 5, 7, 3, 8
 	if !c.Quick() {
-		fullLen, redLen, exprLen, charLen = 5, 7, 9, 4
+		fullLen, redLen, exprLen, charLen, stmtLen = 5, 7, 9, 4, 10
 	}
 	if c.Tier == "deep" {
-		fullLen, redLen, exprLen, charLen = 6, 8, 10, 4
+		fullLen, redLen, exprLen, charLen, stmtLen = 6, 8, 10, 4, 11
 	}
 	if err := loadGrammars(); err != nil {
 		c.HarnessError("grammar: " + err.Error())
@@ -159,6 +159,11 @@ func C08(c *fw.Ctx) {
 	c.Bound("expression_alphabet_max_tokens", exprLen)
 	c.Bound("char_level_max_fragments", charLen)
 	c.R.Rule = "viable-prefix search: from every prefix the amended grammar (Earley over grammer.txt) says is viable, every symbol of the token alphabet is appended; every viable prefix and every dead one-token extension is rendered on one line and one token per line and run through the real lexer+parser; plus every text over the lexical fragments up to the bound, deep-nesting, 255-parameter and reserved-name families; non-trivial = in the accept/reject domain; distinct by text"
+	ext := []tokSym{{"IDENT", "a"}}
+	if !c.Quick() {
+		ext = []tokSym{{"IDENT", "a"}, {"NUMBER", "1"}, {"LEFT_BRACE", "{"}}
+	}
+	c.Bound("dead_leaf_extension_symbols", len(ext))
 	v, d, o := walkTokens(c, fullAlphabet(), fullLen, func(tc tokCase) { visitC08(c, tc, len(tc.Syms) <= 3) })
 	c.Add("full_viable_prefixes", v)
 	c.Add("full_dead_extensions", d)
@@ -177,6 +182,15 @@ func C08(c *fw.Ctx) {
 	})
 	c.Add("expr_viable_prefixes", v)
 	c.Add("expr_dead_extensions", d)
+	c.Bound("statement_alphabet_symbols", len(stmtAlphabet()))
+	c.Bound("statement_alphabet_max_tokens", stmtLen)
+	v, d, o = walkTokensExt(c, stmtAlphabet(), stmtLen, ext, func(tc tokCase) {
+		if len(tc.Syms) > fullLen {
+			visitC08(c, tc, false)
+		}
+	})
+	c.Add("stmt_viable_prefixes", v)
+	c.Add("stmt_dead_extensions", d)
 	// character level
 	frs := append([]string{}, c09Wide...)
 	frs = append(frs, model.KwPrint, model.KwIf, "বা", model.BiLen)
